@@ -20,22 +20,34 @@ SCHEMA = '''<xs:schema xmlns:xs="http://www.w3.org/2001/XMLSchema" elementFormDe
     <xs:element name="ref" type="xs:IDREF" minOccurs="0" maxOccurs="unbounded"/>
     <xs:element name="fx" type="xs:decimal" fixed="1.0" minOccurs="0"/>
     <xs:element name="val" type="Val" minOccurs="0" maxOccurs="unbounded"/>
+    <xs:element name="bitem" type="Item" block="extension" minOccurs="0" maxOccurs="unbounded"/>
     <xs:any namespace="##other" processContents="lax" minOccurs="0" maxOccurs="unbounded"/>
    </xs:sequence>
    %(assert)s
   </xs:complexType>
   <xs:key name="K"><xs:selector xpath="item"/><xs:field xpath="@k"/></xs:key>
   <xs:unique name="U"><xs:selector xpath="item/sub"/><xs:field xpath="@n"/></xs:unique>
+  <xs:unique name="UC"><xs:selector xpath="item"/><xs:field xpath="@code"/></xs:unique>
   <xs:keyref name="R" refer="K"><xs:selector xpath="item/link"/><xs:field xpath="@to"/></xs:keyref>
  </xs:element>
  <xs:complexType name="Item">
   <xs:sequence>
-   <xs:element name="link" minOccurs="0" maxOccurs="unbounded">
-    <xs:complexType><xs:attribute name="to" type="xs:int" use="required"/></xs:complexType>
-   </xs:element>
+   <xs:element name="link" type="LinkT" minOccurs="0" maxOccurs="unbounded"/>
   </xs:sequence>
   <xs:attribute name="k" type="xs:int" use="required"/>
   <xs:attribute name="id" type="xs:ID"/>
+  <xs:attribute name="code" type="xs:string"/>
+ </xs:complexType>
+ <xs:complexType name="LinkT"><xs:attribute name="to" type="xs:int" use="required"/></xs:complexType>
+ <xs:complexType name="ItemTok">
+  <xs:complexContent>
+   <xs:restriction base="Item">
+    <xs:sequence>
+     <xs:element name="link" type="LinkT" minOccurs="0" maxOccurs="unbounded"/>
+    </xs:sequence>
+    <xs:attribute name="code" type="xs:token"/>
+   </xs:restriction>
+  </xs:complexContent>
  </xs:complexType>
  <xs:complexType name="ItemExt">
   <xs:complexContent>
@@ -67,6 +79,9 @@ DOCS = {
     'fixed-bad': '<root><item k="1"/><fx>2</fx></root>',
     'four': '<root><item k="1"/><item k="2"/><item k="3"/><item k="4"/></root>',
     'broken': '<root><item>junk</item><bogus/></root>',
+    'blocked': '<root %s><item k="1"/><bitem k="2" xsi:type="ItemExt"><sub n="1"/></bitem></root>' % XSI,
+    'tok-type': '<root %s><item k="1" xsi:type="ItemTok" code="a  b"/><item k="2" code="c"/></root>' % XSI,
+    'codes': '<root><item k="1" code="a  b"/><item k="2" code="a b"/></root>',
     'val-type': '<root %s><item k="1"/><val xsi:type="ValSmall">7</val><val>7</val></root>' % XSI,
 }
 DOC_NAMES = sorted(DOCS)
